@@ -69,6 +69,14 @@ def run(ctx):
             cap = rng.choice([1, 2, 3, 8, 9, 16, 17, 64, n + 1])
             sched = rng.choice(["-", ",".join(["1"] * min(n, 400)), ",".join(str(rng.randrange(1, 12)) for _ in range(min(n, 60)))]) or "-"
             cases.append(kt.format(h=hexs(d), cap=cap, sched=sched or "-", n=rng.randrange(0, 6), nb=rng.choice([0, 1, 5, 64, 100000])))
+    # windows that end right before a brace, after runs of tabs/newlines (fast-path look-ahead)
+    for _ in range(ctx.scale(300, 3000)):
+        pre = rng.choice([b"a=b", b"x={ y }", b"k = v", b"", b"{", b"q"])
+        ws = bytes(rng.choice(b"\t\n") for _ in range(rng.choice([7, 8, 8, 8, 9, 16])))
+        tail = rng.choice([b"}", b"{", b"} z=1", b"{ a }"])
+        d = pre + ws + tail
+        cases.append("tr.subslice\t%s\t%d" % (hexs(d), len(pre) + len(ws)))
+        cases.append("tr.stream\t%d\t%d,%d\t%s\t%d" % (len(d) + 9, len(pre) + len(ws), len(d), hexs(pre + ws + b"c=d"), rng.choice([0x7b, 0x7d])))
     ctx.count("inputs", len(ins))
     for prof in PROFILES:
         impl, _ = ctx.correspond("entry_points_" + prof, cases, nontrivial=lambda c, i: not i.startswith("ERR") and i not in ("none", "NOKIND"), profile=prof, model=(prof == "release"))
